@@ -70,6 +70,9 @@ CHECKS = {
     "C17": ("model_checking", E3 + "; repetition in fresh processes",
             "Z-HIT with automatic options (4, 5 and 20 tasks per stage, three spectra incl. one whose candidates tie bit-for-bit), multi-method fits (incl. a constructed exact tie), evaluate_log_F_ext and cnls run under a controlled in-process pool: every feasible completion order for P = 2 (3) workers and for P = n in thorough, deviation-bounded (<= 1-2) otherwise; each execution is compared with the serial result. The TLC model of the pool (N tasks, P workers) supplies the completion orders independently: its terminal traces equal the enumerator's set and every one is replayed on the pool and on perform_zhit. Plus same-process and fresh-process repetition (different hash seeds), mock-data seeds, and a free-running sample with the real pool.",
             "Workers share no memory and results travel by pickle, which the controlled pool reproduces; time-outs and OS scheduling are not modelled; BHT/TR-RBF are excluded (unseeded by design).", "DESIGN.md section 4, C17"),
+    "C18": ("exploration", E1 + " (option cross products: full product of the step-arithmetic dimensions, pairwise covering of the rest) + explicit-state search of the Progress counter",
+            "KK (7 tests x num_RC modes x num_F_ext_evaluations in {-10, 0, 5, 10, 21} as a full product on 4..41 points, crossed with a pairwise covering array / full product over representation, capacitance, inductance, rapid, F_ext limits), Z-HIT (auto options x windows x weights full product; pairwise / full over 6 smoothers x 5 interpolators x {Z,Y} x weights x windows x (num_points, order) on 3/5/12 points), DRT (all methods and modes on 1..12 points), fit (36 method/weight pairs + auto on 1..12 points): every call must complete or be refused by an explicit raise of a TypeError/ValueError/library error in pyimpspec code; the progress counter's own check and anything propagating from NumPy/SciPy/lmfit/statsmodels is a violation; every notification must carry a fraction in [0, 1] and a string. The Progress class itself is searched as a state machine (two nested contexts, register/unregister) to depth 7 (9).",
+            "Refusal is recognised from the traceback (innermost frame is an explicit raise in pyimpspec); cnls runs its real kernel on <= 8 points only.", "DESIGN.md section 4, C18"),
 }
 
 NOT_YET = "check not built yet in this round (planned, see DESIGN.md section 4)"
